@@ -408,24 +408,54 @@ def chunks(l, n):
 
 
 def run_workspaces(c, cases):
+    """phase A then phase B on every case; cases with a really executed job run in small separate driver
+    processes under a short timeout (a hang of the real scheduler is not this property's business: the case
+    is then re-done without real execution and counted)"""
     root = c.scratch() / "ws"
     root.mkdir(exist_ok=True)
-    parts = chunks(cases, 16)
 
-    def phase(ph, dep):
-        def one(part):
-            return run_impl("drive_c20.py", dict(phase=ph, root=str(root), cases=part), timeout=900,
-                            extra_env={"VPK_C20_DEPRECATED": dep})
-        with ThreadPoolExecutor(max_workers=16) as ex:
-            return [x for part in ex.map(one, parts) for x in part]
+    def is_real(case):
+        return any(j["mode"] == "run" for j in case["jobs"])
 
-    olds = phase("A", "0")
-    for case, o in zip(cases, olds):
-        paths = [(x["type"], x["id"]) for x in o]
-        if len(set(paths)) != len(paths):
-            raise InternalError("generator produced two jobs with the same former identity: " + json.dumps(case["jobs"]))
-        case["old"] = o
-    return phase("B", "1")
+    def both(part, timeout):
+        olds = run_impl("drive_c20.py", dict(phase="A", root=str(root), cases=part), timeout=timeout,
+                        extra_env={"VPK_C20_DEPRECATED": "0"})
+        for case, o in zip(part, olds):
+            paths = [(x["type"], x["id"]) for x in o]
+            if len(set(paths)) != len(paths):
+                raise InternalError("generator produced two jobs with the same former identity: " + json.dumps(case["jobs"]))
+            case["old"] = o
+        return run_impl("drive_c20.py", dict(phase="B", root=str(root), cases=part), timeout=timeout,
+                        extra_env={"VPK_C20_DEPRECATED": "1"})
+
+    def one(part):
+        if not is_real(part[0]):
+            return both(part, 1500)
+        try:
+            return both(part, 240)
+        except InternalError as e:
+            if "rc=124" not in str(e):
+                raise
+            hung.append(len(part))
+            for case in part:
+                case["name"] += "x"
+                for j in case["jobs"]:
+                    j["mode"] = "gen"
+            return both(part, 1500)
+
+    hung = []
+    plain = [x for x in cases if not is_real(x)]
+    real = [x for x in cases if is_real(x)]
+    parts = chunks(plain, 16) + chunks(real, max(1, (len(real) + 3) // 4))
+    with ThreadPoolExecutor(max_workers=16) as ex:
+        res = list(ex.map(one, [p for p in parts if p]))
+    byname = {}
+    for part, answers in zip([p for p in parts if p], res):
+        for case, ans in zip(part, answers):
+            byname[id(case)] = ans
+    if hung and hasattr(c, "count"):
+        c.count("real-run-chunks-timed-out(re-done without execution)", len(hung))
+    return [byname[id(case)] for case in cases]
 
 
 class Collector:
